@@ -20,7 +20,7 @@ Judge(e) ==
   LET body == Parse(e.body) ppv == [kd |-> FromBE(e.pp.kd_n), pd |-> FromBE(e.pp.pd_n)] IN
   IF IsErr(body) THEN Fail(P, "Dep/body-malformed", sc, body.why) ELSE
   LET dep == Deposits(body, ppv) imp == ImplicitInput(body, ppv) IN
-  /\ Obl(P, sc, <<e.n, [j \in 1..Len(Elems(body,4)) |-> CertKind(Elems(body,4)[j])], FitsU64(dep), FitsU64(imp)>>)
+  /\ Obl(P, sc, <<IF Has(e, "phase") THEN e.phase ELSE 0, e.n, [j \in 1..Len(Elems(body,4)) |-> CertKind(Elems(body,4)[j])], FitsU64(dep), FitsU64(imp)>>)
   /\ Figure(e.h_dep, dep, "Helper", "deposit", sc)
   /\ Figure(e.h_imp, imp, "Helper", "implicit-input", sc)
   /\ IF Has(e.h2, "ok") THEN Figure(e.h2.dep, dep, "HelperDecoded", "deposit", sc) /\ Figure(e.h2.imp, imp, "HelperDecoded", "implicit-input", sc)
